@@ -189,8 +189,13 @@ def run_driver_parallel(lines, obs, workers=12):
         return run_driver(lines, obs)
     groups = [[] for _ in range(workers)]
     rr = 0
+    ids = {l.split()[1] for l in lines if l.startswith("ctx ")}
     for i, l in enumerate(lines):
+        t = l.split()
         c = ctx_of(l)
+        if c is None:
+            # any op naming a context goes to that context's group, whatever its kind
+            c = next((x for x in t[1:3] if x in ids), None)
         if l.startswith("dec ") or l.startswith("len "):
             c = None                       # the decoder / probe ignore the context id
         if c is None:
@@ -344,7 +349,7 @@ def write_replay(prop, kind, ops, idx, impl, model, verdict, extra=None):
 
 def ctx_of(line):
     t = line.split()
-    if t[0] in ("ctx", "proc", "seteid", "setuuid", "enc", "encr"):
+    if t[0] in ("ctx", "proc", "procsweep", "seteid", "setuuid", "enc", "encr"):
         return t[1]
     if t[0] in ("rtdec", "hdr"):
         return t[2]
